@@ -6,7 +6,7 @@ from props._searchprop import SEARCH_TARGETS, SEARCH_TRUST, run_search_prop, rep
 PROP = 'C03'
 LEAN_TARGETS = SEARCH_TARGETS + ['MM.Props.ScoreTie']
 THEOREMS = ['MM.Search.' + n for n in ('C03_sound', 'C03_complete', 'C03_nodup', 'C03_topk', 'C03_optimal', 'exhaustive_spec', 'designLt_strictWeak_on_nanFree', 'tie_share', 'tie_budget_screen', 'tie_volume')] + ['MM.Search.'+n for n in ['tie_score_fields', 'tie_score_exprs', 'tie_score_order']]
-TRUSTED_BASE = SEARCH_TRUST + ['feasibility is over the admitted geos (documented behaviour of geos_within_constraints / n_geos_max); scores containing NaN are outside the claim']
+TRUSTED_BASE = SEARCH_TRUST + ['feasibility is over the admitted geos (documented behaviour of geos_within_constraints / n_geos_max); designs that use a never-admitted geo as control are tabulated too (instances with <= 6 assignable geos, no n_geos_max) and an omitted better one is reported as known finding F-C03-admission; scores containing NaN are outside the claim']
 
 
 SUPPORTS_DEEPEN = True
